@@ -1193,6 +1193,9 @@ def _load_ce():
     return {}
 
 
+_CHK = 'chk-%d' % os.getpid()
+
+
 def build_tus(tus):
     """generate and build the TUs {name: (build, [KCase])} with a bounded number of jobs (the runner then finds them
     cached).  A TU that does not compile is bisected (G.probe): the offending cases become stubs answering `compile-error`,
@@ -1211,7 +1214,7 @@ def build_tus(tus):
         new = {}
         if binp is None:
             live = [c for c in cases if c.key not in stubs]
-            okc, bad = G.probe(live, build, name, repo=runner.REPO, subdir='chk')
+            okc, bad = G.probe(live, build, name, repo=runner.REPO, subdir=_CHK)
             new = bad
             stubs |= set(bad)
             src = G.write_tu(name, cases, build, stubs)
@@ -1227,14 +1230,21 @@ def build_tus(tus):
                 _compile_errors[(build, k)] = v
             if new:
                 ce.setdefault(build, {}).update(new)
-    with open(_ce_cache_path(), 'w') as f:
+    tmp = '%s.%d.tmp' % (_ce_cache_path(), os.getpid())
+    with open(tmp, 'w') as f:
         json.dump(ce, f, indent=0, sort_keys=True)
-    chk = os.path.join(G.GEN_DIR, 'chk')
+    os.replace(tmp, _ce_cache_path())
+    # probe files of THIS process only (checks may run side by side and share .build/gen_c09)
+    chk = os.path.join(G.GEN_DIR, _CHK)
     for fn in (os.listdir(chk) if os.path.isdir(chk) else []):
         try:
             os.remove(os.path.join(chk, fn))
         except OSError:
             pass
+    try:
+        os.rmdir(chk)
+    except OSError:
+        pass
     return specs
 
 
